@@ -20,18 +20,125 @@ type roOp struct {
 	Name string
 	// Run applies the operation and returns a digest of its result (for the concurrent = sequential comparison).
 	Run func(x vocab.Item) string
-	// Run2, when set, also receives a variant copy of x (every IRI in another, equivalent presentation)
-	Run2 func(x, variant vocab.Item) string
+	// Run2, when set, also receives a variant copy of x: Which = "" every IRI in another, equivalent presentation;
+	// "reordered" the same members and language entries in reverse order; "edited" one text and one member changed
+	Run2  func(x, variant vocab.Item) string
+	Which string
 }
 
-func (o roOp) apply(x, variant vocab.Item) string {
+type variantSet struct{ Equiv, Reordered, Edited vocab.Item }
+
+func makeVariants(x vocab.Item) *variantSet {
+	return &variantSet{Equiv: variantCopy(x), Reordered: alteredCopy(x, false), Edited: alteredCopy(x, true)}
+}
+
+func (vs *variantSet) all() []vocab.Item {
+	if vs == nil {
+		return nil
+	}
+	return []vocab.Item{vs.Equiv, vs.Reordered, vs.Edited}
+}
+
+func (o roOp) apply(x vocab.Item, vs *variantSet) string {
 	if o.Run2 != nil {
+		variant := x
+		if vs != nil {
+			switch o.Which {
+			case "reordered":
+				variant = vs.Reordered
+			case "edited":
+				variant = vs.Edited
+			default:
+				variant = vs.Equiv
+			}
+		}
 		if variant == nil {
 			variant = x
 		}
 		return o.Run2(x, variant)
 	}
 	return o.Run(x)
+}
+
+// alteredCopy deep-copies x and reverses every item list and every language list in it (two or more entries); with edit it
+// also changes the text of the last language entry of each list: comparisons then leave the position-by-position path.
+func alteredCopy(x vocab.Item, edit bool) vocab.Item {
+	c := vmodel.DeepCopy(x)
+	if c == nil {
+		return nil
+	}
+	v := reflect.ValueOf(c)
+	if v.Kind() != reflect.Pointer {
+		p := reflect.New(v.Type())
+		p.Elem().Set(v)
+		alterLists(p.Elem(), edit, 0)
+		return p.Elem().Interface().(vocab.Item)
+	}
+	alterLists(v, edit, 0)
+	return c.(vocab.Item)
+}
+
+func alterLists(v reflect.Value, edit bool, depth int) {
+	if depth > 4000 {
+		return
+	}
+	switch v.Kind() {
+	case reflect.Pointer:
+		if !v.IsNil() {
+			alterLists(v.Elem(), edit, depth+1)
+		}
+	case reflect.Interface:
+		if v.IsNil() {
+			return
+		}
+		e := v.Elem()
+		if e.Kind() == reflect.Pointer {
+			alterLists(e, edit, depth+1)
+		} else if e.Kind() == reflect.Slice && v.CanSet() {
+			n := reflect.New(e.Type()).Elem()
+			n.Set(e)
+			alterLists(n, edit, depth+1)
+			v.Set(n)
+		}
+	case reflect.Struct:
+		if v.Type() == vmodel.TimeT {
+			return
+		}
+		for i := 0; i < v.NumField(); i++ {
+			if v.Type().Field(i).IsExported() {
+				alterLists(v.Field(i), edit, depth+1)
+			}
+		}
+	case reflect.Slice:
+		if !v.CanSet() || v.Len() == 0 {
+			return
+		}
+		switch v.Type() {
+		case vmodel.NlvT:
+			old := v.Interface().(vocab.NaturalLanguageValues)
+			n := make(vocab.NaturalLanguageValues, 0, len(old))
+			for i := len(old) - 1; i >= 0; i-- {
+				n = append(n, vocab.LangRefValue{Ref: old[i].Ref, Value: append(vocab.Content{}, old[i].Value...)})
+			}
+			if edit {
+				n[len(n)-1].Value = append(n[len(n)-1].Value, " (edited)"...)
+			}
+			v.Set(reflect.ValueOf(n))
+		case vmodel.IcT:
+			old := v.Interface().(vocab.ItemCollection)
+			n := make(vocab.ItemCollection, 0, len(old)+1)
+			for i := len(old) - 1; i >= 0; i-- {
+				n = append(n, old[i])
+			}
+			v.Set(reflect.ValueOf(n))
+			for i := 0; i < v.Len(); i++ {
+				alterLists(v.Index(i), edit, depth+1)
+			}
+			if edit {
+				v.Set(reflect.ValueOf(append(n, vocab.IRI("https://example.com/one-more-member"))))
+			}
+		}
+	}
 }
 
 // variantCopy deep-copies x and rewrites every IRI without query or fragment into an equivalent presentation (trailing
@@ -147,6 +254,21 @@ func roOps() []roOp {
 		{Name: "x.MarshalBinary()", Run: func(x vocab.Item) string { return digestGob(callMarshal(x, "MarshalBinary")) }},
 		{Name: "ItemsEqual(x,x)", Run: func(x vocab.Item) string { return fmt.Sprint(vocab.ItemsEqual(x, x)) }},
 		{Name: "ItemsEqual(x,variant)", Run2: func(x, y vocab.Item) string { return fmt.Sprint(vocab.ItemsEqual(x, y), vocab.ItemsEqual(y, x)) }},
+		{Name: "ItemsEqual(x,reordered)", Which: "reordered", Run2: func(x, y vocab.Item) string { return fmt.Sprint(vocab.ItemsEqual(x, y), vocab.ItemsEqual(y, x)) }},
+		{Name: "ItemsEqual(x,edited)", Which: "edited", Run2: func(x, y vocab.Item) string { return fmt.Sprint(vocab.ItemsEqual(x, y), vocab.ItemsEqual(y, x)) }},
+		{Name: "x.Equals(reordered)", Which: "reordered", Run2: func(x, y vocab.Item) string {
+			out := ""
+			_ = vocab.OnObject(x, func(o *vocab.Object) error {
+				return vocab.OnObject(y, func(oy *vocab.Object) error {
+					if o == nil || oy == nil {
+						return nil
+					}
+					out = fmt.Sprint(o.Equals(oy), o.Name.Equals(oy.Name), oy.Summary.Equals(o.Summary), o.Content.Equals(oy.Content), o.Tag.Equals(oy.Tag), oy.To.Equals(o.To))
+					return nil
+				})
+			})
+			return out
+		}},
 		{Name: "Contains(variant)", Run2: func(x, y vocab.Item) string {
 			out := ""
 			_ = vocab.OnCollectionIntf(x, func(c vocab.CollectionInterface) error {
@@ -291,15 +413,44 @@ var unrelatedDocs = func() [][]byte {
 	for _, m := range mocks {
 		out = append(out, m.Data)
 	}
+	// documents whose texts sit in language maps, of assorted lengths (a decoder that keeps pointing into a buffer it hands to
+	// the next decode shows when a later, shorter or longer, document lands on the same bytes)
+	for i := 0; i < 12; i++ {
+		pad := strings.Repeat("lorem ipsum ", i*3)
+		out = append(out, []byte(fmt.Sprintf(`{"id":"https://example.com/doc/%d","type":"Note","nameMap":{"en":"name %d %s","fr":"nom %d"},"contentMap":{"en":"<p>content %d %s</p>","de":"Inhalt %d"},"summary":"summary %d","tag":[{"type":"Mention","href":"https://example.com/u/%d","nameMap":{"en":"@user%d","ro":"@utilizator%d"}}]}`,
+			i, i, pad, i, i, pad, i, i, i, i, i)))
+	}
 	return out
 }()
+
+// unrelatedDigests: what each unrelated document decodes to when nothing else runs (computed once, before any goroutine starts)
+var unrelatedDigests = func() []uint64 {
+	out := make([]uint64, len(unrelatedDocs))
+	for i, d := range unrelatedDocs {
+		out[i] = decodedDigest(d)
+	}
+	return out
+}()
+
+func decodedDigest(doc []byte) (h uint64) {
+	defer func() {
+		if recover() != nil {
+			h = 1
+		}
+	}()
+	v, err := vocab.UnmarshalJSON(doc)
+	if err != nil || v == nil {
+		return 2
+	}
+	return H64(vmodel.Canon(v, vmodel.Exact).String())
+}
 
 func init() {
 	nOps := len(allRoOps)
 	Register(&Prop{
 		ID: "C12",
 		Rule: fmt.Sprintf("monitor A (plain build): a deep snapshot (contents plus the whole backing array of every reachable slice up to cap, with sentinel members planted in the spare capacity) is taken before and after each of %d read-only operations (both encoders in package and method form, MarshalBinary, ItemsEqual, formatting, IsNil/NotEmpty/predicates, DerefItem, ordering, collection and language accessors, every On*/To* with a reading callback) on generated values of all 14 kinds, value forms and lists; any difference is a violation attributed to the operation. "+
-			"Monitor B (race build): per shared value G in {4,16} goroutines x 60/20 (quick) or 200/60 (thorough) iterations apply a random interleaving of the same operations while G more goroutines decode unrelated documents (JSON and gob); every concurrent result must equal the sequential result recorded beforehand and the race detector must report nothing; the number of distinct operation pairs that actually overlapped is measured with an in-flight matrix kept outside the shared value; distinct = (value fingerprint, operation); non-trivial = values with at least one slice-valued property set", nOps),
+			"Monitor B (race build): per shared value G in {4,16} goroutines x 60/20 (quick) or 200/60 (thorough) iterations apply a random interleaving of the same operations while G more goroutines decode unrelated documents (JSON and gob); every concurrent result must equal the sequential result recorded beforehand, every concurrently decoded document must equal (at once, and again a few decodes later) what it decodes to alone, and the race detector must report nothing; the number of distinct operation pairs that actually overlapped is measured with an in-flight matrix kept outside the shared value; distinct = (value fingerprint, operation); non-trivial = values with at least one slice-valued property set", nOps),
 		Builds:   func(tier string) []string { return []string{"plain", "race"} },
 		OneShard: []string{},
 		Layers: func(tier string) []Layer {
@@ -311,9 +462,13 @@ func init() {
 					g := caseGen(c, false, idx)
 					x := sharedValue(g, idx)
 					fp := vmodel.Fingerprint(vmodel.Canon(x, vmodel.Exact))
-					variant := variantCopy(x)
+					variant := makeVariants(x)
 					before := vmodel.TakeSnapshot(x)
 					beforeH := vmodel.SnapshotHash(x)
+					var variantH []uint64
+					for _, y := range variant.all() {
+						variantH = append(variantH, vmodel.SnapshotHash(y))
+					}
 					for _, op := range allRoOps {
 						c.Pending(op.Name + " :: " + kindOf(x))
 						if c.Guard(op.Name, func() { _ = op.apply(x, variant) }) {
@@ -328,6 +483,16 @@ func init() {
 							c.Fail(fmt.Sprintf("ro|modified|%s|%s", op.Name, vmodel.DiffField(d)), fmt.Sprintf("%s modified its argument (a %s): %s", op.Name, kindOf(x), d),
 								map[string]any{"operation": op.Name, "kind": kindOf(x), "difference": d})
 							before, beforeH = after, afterH
+						}
+						if op.Run2 != nil {
+							// the other argument of a comparison is an argument too
+							for vi, y := range variant.all() {
+								if h := vmodel.SnapshotHash(y); h != variantH[vi] {
+									c.Fail(fmt.Sprintf("ro|modified-other-argument|%s", op.Name), fmt.Sprintf("%s modified the value its argument (a %s) was compared with", op.Name, kindOf(x)),
+										map[string]any{"operation": op.Name, "kind": kindOf(x)})
+									variantH[vi] = h
+								}
+							}
 						}
 					}
 					if c.WantSample() {
@@ -344,7 +509,7 @@ func init() {
 					for _, op := range allRoOps {
 						ops = append(ops, op)
 					}
-					variant := variantCopy(x)
+					variant := makeVariants(x)
 					// sequential results first
 					seq := make([]string, len(ops))
 					for i, op := range ops {
@@ -364,8 +529,8 @@ func init() {
 					}
 					inflight := make([]int32, len(ops))
 					overlapped := make([]int32, len(ops)*len(ops))
-					var mismatches int32
-					var firstMismatch atomic.Value
+					var mismatches, decodeMismatches, decodesChecked int32
+					var firstMismatch, firstDecodeMismatch atomic.Value
 					var wg sync.WaitGroup
 					seed := c.R.Int63()
 					for w := 0; w < G; w++ {
@@ -401,10 +566,37 @@ func init() {
 						go func(w int) {
 							defer wg.Done()
 							r := newRand(seed + 1000 + int64(w))
+							// "decode independent inputs concurrently ... each result equals the sequential one": every result is digested
+							// at once and again a few decodes later (results are kept in a small ring), against the digest recorded beforehand
+							type kept struct {
+								v   vocab.Item
+								doc int
+							}
+							var ring [6]kept
+							check := func(k kept, when string) {
+								if k.v == nil {
+									return
+								}
+								if got := H64(vmodel.Canon(k.v, vmodel.Exact).String()); got != unrelatedDigests[k.doc] {
+									if atomic.AddInt32(&decodeMismatches, 1) == 1 {
+										firstDecodeMismatch.Store(fmt.Sprintf("document %d (%s)", k.doc, when))
+									}
+								}
+							}
 							for it := 0; it < iters/2; it++ {
-								doc := unrelatedDocs[r.Intn(len(unrelatedDocs))]
-								v, err := vocab.UnmarshalJSON(doc)
-								if err == nil && v != nil && r.Intn(3) == 0 {
+								di := r.Intn(len(unrelatedDocs))
+								v, err := vocab.UnmarshalJSON(unrelatedDocs[di])
+								atomic.AddInt32(&decodesChecked, 1)
+								if err != nil || v == nil {
+									if unrelatedDigests[di] != 2 {
+										atomic.AddInt32(&decodeMismatches, 1)
+									}
+									continue
+								}
+								check(kept{v, di}, "as returned")
+								check(ring[it%len(ring)], "a few decodes later")
+								ring[it%len(ring)] = kept{v, di}
+								if r.Intn(3) == 0 {
 									if b, err := vocab.GobEncode(v); err == nil && len(b) > 0 {
 										_, _ = vocab.GobDecode(b)
 									}
@@ -427,6 +619,11 @@ func init() {
 						c.Fail("ro|concurrent-differs-from-sequential", fmt.Sprintf("%d concurrent results differ from the sequential ones on a shared %s; first: %v", mismatches, kindOf(x), firstMismatch.Load()),
 							map[string]any{"kind": kindOf(x), "goroutines": G})
 					}
+					c.Count("concurrent-decodes-checked", int64(decodesChecked))
+					if decodeMismatches > 0 {
+						c.Fail("ro|concurrent-decode-differs-from-sequential", fmt.Sprintf("%d results of decoding unrelated documents concurrently differ from what the same documents decode to alone; first: %v", decodeMismatches, firstDecodeMismatch.Load()),
+							map[string]any{"goroutines": G})
+					}
 					if after := vmodel.SnapshotHash(x); after != before {
 						c.Fail("ro|modified-under-concurrency", fmt.Sprintf("the shared %s changed while %d goroutines applied read-only operations", kindOf(x), G), map[string]any{"kind": kindOf(x)})
 					}
@@ -437,7 +634,7 @@ func init() {
 			}
 		},
 		Floors: func(tier string) map[string]int64 {
-			return map[string]int64{"snapshot-ops": 30000, "concurrent-ops": int64(tierN(tier, 20000, 250000)), "overlapping-op-pairs-observed": 500}
+			return map[string]int64{"snapshot-ops": 30000, "concurrent-ops": int64(tierN(tier, 20000, 250000)), "overlapping-op-pairs-observed": 500, "concurrent-decodes-checked": int64(tierN(tier, 5000, 60000))}
 		},
 		Assumptions: []string{
 			"gob bytes depend on map iteration order, so gob results are compared through the canonical tree of their decoding",
